@@ -78,7 +78,7 @@ PROPS = {
     "C10": {
         "streams": ["nested", "dualhandle"], "driver": {"nested": "world"}, "level": "proof",
         "trusted_base": LEAN_TB, "assumptions": NEST_ASSUME,
-        "rule": "nested histories (arrays and maps in arrays and maps, wrapped 0-2 levels, depth up to 7, children growing and shrinking across the inline limit, parents restructured between child operations, commits + reload); plus the dual-handle scenarios; distinct = distinct programs",
+        "rule": "nested histories (arrays and maps in arrays and maps, wrapped 0-2 levels, depth up to 7, children growing and shrinking across the inline limit, parents restructured between child operations, commits + reload, commit + reopen + continue with re-fetched handles, handles obtained by lookup and by mutable iteration, byte-granular walks across the inline limit in both directions, PopIterate through child / detached handles with deep disposal, SetType on nested containers, deep removal of everything at the end); plus the dual-handle scenarios; distinct = distinct programs",
         "explanation": "Theorems: storable_inline_decision (inline exactly when a single slab fits the budget left after wrappers; size handed to the parent; value ID kept; storage effect), notify_updates_array_parent, handed_back_is_standalone, value_id_stable (all five operations), elem_sync_childStorable, mutIdx_ok_arrInsert, index_shift_order_independent. Tie: every nested operation replayed on the World model (observations, effects, nested dumps). Oracle: deep read-back through the outermost container, VerifyArray/VerifyMap, reload after commit.",
     },
     "C11": {
